@@ -181,6 +181,16 @@ func verifPartialOpsAlg(kind string, v primitive.ProtocolVersion, alg int) {
 		nd.Assert(err == nil, "raw frame encodes")
 		nd.Assert(bytes.Equal(out.Bytes(), b), "ConvertToRawFrame+EncodeRawFrame emits the bytes of EncodeFrame")
 	}
+	// the raw frame itself is consistent (a proxy forwards its header and body as they are) and converts back
+	raw3, err := c.ConvertToRawFrame(f)
+	if err == nil {
+		nd.Assert(int(raw3.Header.BodyLength) == len(raw3.Body), "the header of a converted raw frame declares the length of its raw body")
+		g3, err := c.ConvertFromRawFrame(raw3)
+		nd.Assert(err == nil, "a converted raw frame converts back")
+		if err == nil {
+			verifEq_PFrame("frame->raw->frame", f, g3)
+		}
+	}
 	// (3) header then body / raw body / discard, seekable and non-seekable sources
 	for mode := 0; mode < 6; mode++ {
 		var rd interface {
